@@ -37,7 +37,7 @@ WHAT = {
     "C27-a": ("ledger/eval: a NotParticipating account may be marked absent", ""),
     "C28-a": ("verify/verifiedTxnCache.go: cached verdict reused for the same txid with AuthAddr stripped",
               "new block-level forgery in obs_auth_block.go: look-alike goes through verify.TxnGroup with the ledger's cache, then the forged block is offered to Ledger.Validate"),
-    "C29-a": ("catchup/service.go: contents check skipped when the header hash was seen before", ""),
+    "C29-a": ("catchup/service.go: contents check skipped when the header hash was seen before", "C29's check had no catchup path: it now runs catchupsim as a second engine (the C30 check caught the change from the start)"),
     "C30-a": ("catchup/service.go: contents check skipped for an empty payset", ""),
     "C36-a": ("crypto/onetimesig: old round stays signable after key advance",
               "advance-past-end sequence added (an earlier version of the check would have missed it)"),
@@ -45,8 +45,8 @@ WHAT = {
     "C43-a": ("network: per-tag size check skipped when the last chunk arrives together with io.EOF", ""),
     "C44-a": ("data/pools: remembered and pending slices share a backing array", ""),
     "C46-a": ("kmd sqlite wallet driver: stale max-key-index after skipping an imported key", ""),
-    "C47-a": ("generickv: txtail delete-before-insert differs from SQLite on a wide flush", ""),
-    "C12-a": ("", ""),
+    "C47-a": ("generickv: txtail delete-before-insert differs from SQLite on a wide flush", "storesim commits were at most 3 rounds wide: one commit in eight now spans 4-10 rounds (wider than the txtail horizon)"),
+    "C12-a": ("ledgercore/totals.go: reward units counted from money incl. pending rewards (same edit as C18-a, found independently)", "none: the first evaluation ran only 31 runs on a fully loaded machine; with 150 s it is caught by the generic totals oracle"),
 }
 
 rows = []
